@@ -13,6 +13,51 @@ The rules are phrased over *values* and *control flow*, not over the spelling of
 
 Three verdicts: the located construct satisfies the necessary condition -> discharged; it is located and does not ->
 violated; the construct cannot be located in the (normalised) code -> undecided.
+
+Technique
+---------
+(numbers: ALLOWED devices 1-6 of RULES_GUIDE.md "What counts as *static* here"; nothing in this module interprets /repo
+function bodies, loops or expressions on data chosen by the checker, enumerates numeric inputs, unrolls a loop or matches
+sample strings.  No algebraic lemma is relied on: every comparison is structural equality of terms or equality of
+constants/tables.)
+
+* Shared: `_Val` - device 3 (reaching definitions substituted into symbolic value terms: copies, tuple (un)packing,
+  dict literals, argument binding into resolved package callees, loop variables as the symbolic `("elem", loop)`,
+  loop-carried names kept opaque - no unrolling; several reaching definitions -> `phi`, compared structurally),
+  device 1 (resolved callees, `bind_args`), device 6 (`_fold`: arithmetic on literals / single-definition constants).
+  `_ceval` - device 6 only: folds a *closed constant* expression of /repo (module-level table, literal `range(..)`),
+  including `bytes([..])`/`list(..)`/`range(..)` and a single-generator comprehension whose iterable is itself such a
+  constant spelled out by /repo; it is never given a value, length or byte string chosen by the checker, and it never
+  enters a /repo function body (calls other than these builtins on constants are NotConst -> undecided).
+  `_explore` - device 2 + 5: graph search of the CFG with the state "values of the locals that only ever hold literal
+  True/False" (flag propagation; vocabulary = the code's own boolean flags, each True/False/unknown), branch edges pruned
+  by three-valued `tv_eval` under those flag values; every other test stays symbolic (both edges followed; a test on a
+  local updated in the candidate loop downgrades the verdict to undecided).  No data values, no loop unrolling (states
+  are memoised per CFG node).
+* R1: 6 - DEFAULT_XOR_KEYS (module-level constant table) folded and compared completely with the reference key table.
+* R2: 1, 3, 6 - needle located by role (data operand of the `xor()` feeding the resolved scanner call) as a value term,
+  folded to a constant and compared with the serialisation of `Setting` computed from the *parsed* C definition
+  (csverif.cdefs, reference-table side, not /repo code); block size = constant argument term of the `read()` on the
+  file parameter that feeds the yielded block.
+* R3: 1, 2, 3 - argument terms of the scanner / `xor()` / `read()` / `seek()` calls compared structurally with the
+  parameter terms and the loop-element term; CFG dominance and `reaches(.., avoiding=..)` for "seek precedes the read in
+  every iteration, file untouched in between" and "no path through the scan loop skips the yield or leaves the loop".
+* R4: 1, 2, 3 - search sites located by role (resolved callee, file argument term = file parameter or its XorEncoded
+  view); key list term compared structurally with `<keys parameter> or DEFAULT_XOR_KEYS` (for the if-form: dominating
+  conditions + three-valued evaluation of the guards under the named assumption "keys parameter falsy"); yielded
+  tuple/dict terms compared structurally with the searched key term and the literal flag of the site kind.
+* R5: 2, 5 (`_explore`: after a yield mark no search/retry target is reachable; CFG reachability for phase order;
+  dominating condition for the all-keys option), 1, 3 (argument terms of the recursive call and of `make_byte_list`),
+  6 (the literal `range(..)` in `make_byte_list` folded and compared with the 256-entry reference table; dependence on
+  the exclude parameter is a syntax-tree query).
+* R6: 1, 2, 3 - consumption of the candidate source (for loop / `next`) located by term equality; "first candidate
+  wins" = no CFG path from the loop body back to the header / no second advance; returned term is a construction by the
+  class parameter from `candidate[0]`, attribute stores between construction and return compared structurally with
+  `candidate[1]["xorkey"|"xorencoded"]`; dominating conditions for the `next(.., default)` presence test.
+* R7: 1, 2, 3 - exit analysis on the CFG (return terms, `falls_off_end`, reachable raise classes, escaping
+  `raise ValueError`), structural comparison of the forwarded argument terms in from_file / from_path / from_bytes.
+* R8: imported obligations of `rules.c15.scanner_obligations` (technique documented there).
+* R9: imported obligations of `rules.c09.r1..r3` (technique documented there).
 """
 
 from __future__ import annotations
